@@ -273,12 +273,15 @@ def _preprocess(ctx):
                              f"Twp/Rge reference and disappears from every description without a flag",
                   key=f"SINK|{name}|wildcard|{','.join(sorted(set(out)))}", where=rv.module)
     rw = ctx.repo.func('plss_preprocess:reduce_whitespace')
-    pats = [(ctx.fold.eval(c.args[0], {}, rw.module.name), ctx.fold.eval(c.args[1], {}, rw.module.name))
-            for c in walk_local(rw.node) if isinstance(c, ast.Call) and dotted(c.func) == 're.sub']
+    pats = [(a_, b_) for a_, b_, _c in common.sub_pairs(ctx, rw)]
+    n_calls = len([c for c in walk_local(rw.node) if isinstance(c, ast.Call) and dotted(c.func) == 're.sub'])
     ok = bool(pats) and all(isinstance(p, str) and isinstance(r, str) and
                             set(p) <= set(' +\\tnr{}2,^[]') and r in (' ', '\n', '\n\n', '') for p, r in pats)
-    ctx.check(ok, 'SINK', 'reduce_whitespace only rewrites whitespace', f"{len(pats)} substitutions",
-              f"reduce_whitespace substitutions {pats} touch non-whitespace", key="SINK|reduce_whitespace")
+    if not pats and n_calls:
+        ctx.undecided('SINK', 'reduce_whitespace only rewrites whitespace', 'substitution patterns do not fold')
+    else:
+        ctx.check(ok, 'SINK', 'reduce_whitespace only rewrites whitespace', f"{len(pats)} substitutions",
+                  f"reduce_whitespace substitutions {pats} touch non-whitespace", key="SINK|reduce_whitespace")
 
 
 def _thresholds_and_tests(ctx):
